@@ -246,7 +246,8 @@ class OrthogonalNpcLinearOperator(NpcLinearOperatorWrapper):
 
     def matvec(self, vec):
         # equivalent to using H' = P H P where P is the projector (1-sum_o |o><o|)
-        vec = vec.copy()
+        # (a list of Arrays needs a copy of each entry: the projections below work in place)
+        vec = [a.copy() for a in vec] if isinstance(vec, list) else vec.copy()
         for o in self.ortho_vecs:  # Project out
             # for a, b in zip(vec, o):
             #    a.iadd_prefactor_other(-npc.inner(b, a, axes='range', do_conj=True), b)
